@@ -632,7 +632,8 @@ def replay(ctx, path):
 LEVEL_TEXT = ("Machine-checked Coq theorems over a statement-by-statement Gallina model of Sniffer.TCP/UDP/Check, the teeReader and the QUIC "
               "Initial parsing/unprotecting/CRYPTO-frame code: for every stream script (chunks, zero reads, errors and a deadline at any "
               "position), every consumer read pattern and every library answer, replay ++ unread = sent; the address is the old one or "
-              "join(Host/SNI, old port); the caller's datagram buffer is never written; Check's filter; no slice/index/make of the QUIC and "
+              "join(Host/SNI, old port); assembleCryptoFrames returns a single frame's data or the data of frames that follow one another without "
+              "hole or overlap (never a zero-filled gap); the caller's datagram buffer is never written; Check's filter; no slice/index/make of the QUIC and "
               "TLS-length code can panic for any byte string. The model is tied to /repo on every run by a differential run of the Go code "
               "against the model on ~4000 cases in the quick tier, ~53000 in the thorough tier (vm_compute in the kernel), the library oracles' answers being computed independently in the harness.")
 LEVEL_NOTE = ("Trusted: Coq kernel + vm_compute; hand-written model (tie is sampled differential testing + regenerated Params); python/Go glue. "
